@@ -255,7 +255,7 @@ def jobs(tier):
 
 def meta(tier):
     return {
-        'bounds': ['transaction shapes: read / write, with / without seed-key, data lengths ' + ('{3, 20}' if tier == 'quick' else '{1,3,7,8,9,20,40}') + ' (single-frame and RTS/CTS DM16)',
+        'bounds': ['transaction shapes: read / write, with / without seed-key, data lengths ' + ('{3, 20}' if tier == 'quick' else '{1,2,3,7,8,9,14,15,20,40,100,255}') + ' (single-frame and RTS/CTS DM16)',
                    'injection point: after every frame the server has received from the running requester and after every frame the serving application thread has sent (enumerated schedule choice), 1 or 2 intrusions',
                    'intruder: foreign source address (symbolic 0..253, != server, != requester) with a symbolic pointer (= / != the running one, split by the solver) and symbolic count; or the requester\'s own address with a different pointer',
                    'pointer, data, values, seed symbolic', 'running requester at address 0xF9, 0x00, 0xFD', 'client-side shape: the intruding DM14 reaches a node that is itself running a read / write as client (every point of that transaction)'],
